@@ -144,12 +144,21 @@ def run(pid, tier, replay):
         "inputs are valid UTF-8 (the API takes &str); invalid UTF-8 and NUL bytes belong to the string decoder (C03)",
         "'org.freedesktop.DBus' is accepted as a unique name by design of zbus_names (the bus driver's sender name)",
     ]
+    # the server-GUID part of C10 lives in a zbus-dependent crate (harness/rules) with its own grammar module
+    from props import rules_guid
+    ev = chk.cov.get("evaluations", 0)
+    ng = rules_guid.run_guid(chk)
+    chk.cov["evaluations"] = ev + chk.cov.get("guid_construction_calls", ng)
     return chk.finish()
 
 
 def do_replay(chk, gram, names, path):
     with open(path) as f:
         rp = json.load(f)
+    if "case" not in rp["replay"] and "observation" in rp["replay"]:
+        from props import rules_guid          # a replay of the GUID part
+        rules_guid.run_guid(chk, replay_obs=rp["replay"]["observation"])
+        return chk.finish()
     case = rp["replay"]["case"]
     cases = chk.path("replay_case.ndjson")
     with open(cases, "w") as f:
